@@ -196,10 +196,17 @@ def curated(name):
                    {"radar": ({"range": rng_, "bearing": atan2(dy, dx), "rate": -(dx * vx + dy * vy) / rng_}, {"range": 0.3, "bearing": 0.05, "rate": 0.2}),
                     "gps": ({"px": x, "py": y}, {"px": 0.5, "py": 0.6})},
                    {"lx": 7.0, "ly": -6.0}, tags=["curated", "multi_reading_sensor", "nested_cse"])
+    if name == "brake":  # linear in the state, bilinear in control x state: the process jacobian depends on the CONTROL only
+        pos, vel, brake, push = (Symbol(n) for n in ["pos", "vel", "brake", "push"])
+        return _mk(name, ["pos", "vel"], ["brake", "push"], [],
+                   {"pos": pos + dt * vel, "vel": vel * (1 - dt * brake) + dt * push},
+                   {"brake": 0.05, "push": 0.3},
+                   {"odo": ({"speed": vel}, {"speed": 0.2}), "gate": ({"where": pos + 0.5 * vel}, {"where": 0.4})},
+                   {}, tags=["curated", "control_dependent_jacobian"])
     raise KeyError(name)
 
 
-CURATED = ["mass_zva", "managed", "direct2", "cv", "rect", "landmark"]
+CURATED = ["mass_zva", "managed", "direct2", "cv", "rect", "landmark", "brake"]
 
 
 # --------------------------------------------------------------------------- building real objects
